@@ -20,9 +20,46 @@ def _lineage_model(with_rxn, growth=True, division=True, death=False):
     return M
 
 
+def replay_lineage_reuse():
+    """two lineage simulations on ONE LineageSSASimulator object"""
+    import warnings
+    warnings.simplefilter("ignore")
+    from bioscrape.lineage import LineageSSASimulator, LineageCSimInterface, LineageVolumeCellState
+    from bioscrape.random import py_seed_random
+    bad = []
+    M = _lineage_model(True)
+    sim = LineageSSASimulator()
+    tp = np.arange(0, 4, 0.25)
+    lins, sizes = [], []
+    for k in range(2):
+        itf = LineageCSimInterface(M)
+        itf.py_set_initial_time(tp[0])
+        py_seed_random(4 + k)
+        cells = [LineageVolumeCellState(v0=1, t0=0, state=itf.py_get_initial_state())]
+        lin = sim.py_SimulateCellLineage(tp, interface=itf, initial_cell_states=cells)
+        lins.append(lin)
+        sizes.append(lin.py_size())
+        founders = [i for i in range(lin.py_size()) if lin.py_get_schnitz(i).py_get_parent() is None]
+        if len(founders) != 1:
+            bad.append("call %d on the same simulator: the returned lineage has %d founder cells for one initial cell" % (k + 1, len(founders)))
+        for i in range(lin.py_size()):
+            s_ = lin.py_get_schnitz(i)
+            for d in s_.py_get_daughters():
+                if d is not None and d.py_get_parent() is not s_:
+                    bad.append("call %d: a daughter's parent link does not point back to its mother" % (k + 1))
+                    break
+    if lins[0] is lins[1]:
+        bad.append("both calls returned the same Lineage object")
+    if lins[0].py_size() != sizes[0]:
+        bad.append("the first call's lineage grew from %d to %d cells during the second call" % (sizes[0], lins[0].py_size()))
+    return {"reproduced": bool(bad), "observed": bad[:3], "expected": "every call returns a lineage of its own simulation only"}
+
+
 def replay(spec):
     import warnings
     warnings.simplefilter("ignore")
+    if spec.get("kind") == "lineage_reuse":
+        return replay_lineage_reuse()
     from bioscrape.random import py_seed_random
     kind = spec.get("kind", "single_cell")
     problems = []
